@@ -8,7 +8,7 @@ from ..cfg import NORMAL, Node
 from ..core import Ctx
 from ..flow import ALL, find_path, names_in
 from ..model import AnalysisError, FunctionInfo, dotted, norm_text
-from .common import EnumVal, edge_target, kwarg, reachable_from, scenario_walk, str_consts
+from .common import EnumVal, eval3, edge_target, kwarg, reachable_from, scenario_walk, str_consts
 
 EXPLANATION = (
     "Static analysis of the append path: (R1) writer/validator agreement - the schema-field keys CONSUMED where they decide "
@@ -46,6 +46,60 @@ def check(ctx: Ctx) -> None:
     from .c13 import r4 as c13_r4
     ctx.shared(c13_r4, "C13.R4", "C11.R6", "bounds written by an accepted append are lossless")
     handles_fresh(ctx)
+    appended_files_must_exist(ctx)
+
+
+def missing_file_raises(ctx: Ctx, f: FunctionInfo, rid: str, what: str) -> int:
+    """In f: wherever validate_file_exists(...) is tested, the outcome 'does not exist' leads to a raise on every path
+    (before the loop goes on / the function returns). Returns the number of tests judged."""
+    g = ctx.cfg(f)
+    n = 0
+    for c in g.calls():
+        if c.id not in g.reachable() or not any(t.name == "validate_file_exists" for t in ctx.eff.callees(f, c)):
+            continue
+        brs = [b for b in g.nodes if b.kind == "branch" and b.stmt is c.stmt and b.ast is not None and any(x is c.ast for x in ast.walk(b.ast))]
+        n += 1
+        ok = False
+        wit = None
+        for b in brs:
+            v = eval3(b.ast, lambda e: False if e is c.ast else None)
+            if v is None:
+                continue
+            t = edge_target(g, b, "true" if v else "false")
+            if t is None:
+                continue
+            stops = [g.exit] + [x.id for x in g.nodes if x.kind == "loop"] + [x.id for x in g.nodes if x.kind == "return"]
+            wit = find_path(g, t, stops, avoid=[x.id for x in g.nodes if x.kind == "raise"], labels=NORMAL)
+            ok = wit is None
+        ctx.ob(rid, f, what, c, ok, "a file that does not exist raises FileNotFoundError before anything is queued / written" if ok else
+               "the 'does not exist' outcome of the existence test can fall through: a DataFile naming a missing file is accepted and "
+               "every later scan fails on it", witness=ctx.path_witness(f, wit))
+    return n
+
+
+def appended_files_must_exist(ctx: Ctx, rid: str = "C11.R8") -> None:
+    ctx.rule(rid, "pre-built files are checked twice: append_files raises for a DataFile whose file does not exist, and at commit "
+             "time validate_data_files(append_files) - which raises for a missing file - dominates the manifest that references "
+             "them (a file deleted between queueing and commit fails the commit instead of being committed)", 3)
+    af = ctx.fn("transaction.Transaction.append_files")
+    n1 = missing_file_raises(ctx, af, rid, "append_files: missing file -> raise")
+    vd = ctx.fn("file_manager.FileManager.validate_data_files")
+    n2 = missing_file_raises(ctx, vd, rid, "validate_data_files: missing file -> raise")
+    if n1 == 0 or n2 == 0:
+        raise AnalysisError("existence tests vanished from append_files / validate_data_files")
+    cf = ctx.fn("transaction.Transaction._commit_file_ops")
+    g = ctx.cfg(cf)
+    dom = ctx.dom(cf, NORMAL)
+    sl = ctx.slicer(cf)
+    vcalls = [n for n in g.calls() if any(t.name == "validate_data_files" for t in ctx.eff.callees(cf, n))]
+    pn = next((p.name for p in cf.params if "append" in p.name), "append_files")
+    for m in [n for n in g.calls() if any(t.name == "create_manifest_file" for t in ctx.eff.callees(cf, n))]:
+        first = m.ast.args[0] if isinstance(m.ast, ast.Call) and m.ast.args else kwarg(m.ast, "data_files")
+        if first is None or pn not in (names_in(first) | sl.origins(first, m.id)["params"]):
+            continue  # the delete-rewrite manifests carry existing files only
+        ok = any(v.id in dom[m.id] and isinstance(v.ast, ast.Call) and v.ast.args and pn in names_in(v.ast.args[0]) for v in vcalls)
+        ctx.ob(rid, cf, "commit-time validation dominates the manifest of appended files", m, ok,
+               "validate_data_files(append_files) runs on every attempt before the manifest is written")
 
 
 def handles_fresh(ctx: Ctx, rid: str = "C11.R7") -> None:
